@@ -1,0 +1,30 @@
+//go:build verif
+
+// Contracts for package storage, checked by /verif (govc). Ghost declarations and comments only.
+package storage
+
+import "io"
+
+// A bounded cursor over a file is an io.Reader in the sense of the fields package's io model
+// (ghost fields data, pos of the io.Reader it is used as): data = the file's bytes up to the end
+// bound, pos = the cursor's offset. NewBoundedCursor / Move / Offset are the three operations the
+// table reader uses; they are assumed to implement that model (Cursor.Read adds ReadAt(offset) and
+// advances offset by what was read - three lines, trusted, listed in the evidence).
+var ghostCursorData func(f io.ReaderAt, end uint64) []byte
+
+//@ func NewBoundedCursor
+//@   property C17
+//@   trusted
+//@   ensures result != nil && io.Reader(result).pos == 0 && same(io.Reader(result).data, ghostCursorData(reader, end))
+
+//@ func Cursor.Move
+//@   property C17
+//@   trusted
+//@   modifies io.Reader(c).pos
+//@   ensures io.Reader(c).pos == int(offset)
+
+//@ func Cursor.Offset
+//@   property C17
+//@   trusted
+//@   modifies nothing
+//@   ensures int(result) == io.Reader(c).pos
